@@ -6,6 +6,7 @@ enumerates every policy over the weight menu) -> one record per (instance, polic
 state values, action values, occupancies and initial value -> the real evaluate_on on msdm objects
 built from the same instance (several MDP and policy representations) -> entry-wise comparison.
 """
+import json
 import math
 import random
 import warnings
@@ -15,7 +16,7 @@ import numpy as np
 
 from .. import gen, build, pyoracle
 from ..build import frac
-from ..core import digest
+from ..core import digest, canon
 from ..tlc import run_tlc, TLCFailure
 
 MODULE = "C02_PolicyEval"
@@ -549,8 +550,25 @@ def make_cases(rng, n_wanted, tier):
             rep["explicit_list"] = True      # both presentations list every state and action
             rep["relabel"] = rng.random() < 0.4
         m["explicit"] = 1 if rep["explicit_list"] else 0
+        m["sibofs"] = 0
+        # sibling: the same MDP with another discount, placed next in the batch (discount-change histories)
+        sibling = None
+        if not m["near1"] and rng.random() < 0.3:
+            nonpos = all(x <= 0 for sa in m["R"] for row in sa for x in row)
+            options = [g for g in ([(1, 2), (3, 4)] + ([(1, 1)] * 2 if nonpos else [])) if g != (m["GN"], m["GD"])]
+            gn, gd = rng.choice(options)
+            m2 = json.loads(json.dumps(m))
+            m2["GN"], m2["GD"] = gn, gd
+            ex2 = [exact(m2, p) for p in checked]
+            if all(e is not None and e["mag"] < LIMIT for e in ex2):
+                m2["sib_of_prev"] = 1
+                m["sibofs"] = 1
+                sibling = {"m": m2, "rep": dict(rep)}
         cases.append({"m": m, "rep": rep})
         total += n_records(m)
+        if sibling is not None:
+            cases.append(sibling)
+            total += n_records(sibling["m"])
     return cases, rejected
 
 
@@ -623,19 +641,39 @@ def second_presentation(mm, rep, seed, first, discount=None):
     return b
 
 
-def run_real(case, wq, tn, preps, tamper=None):
-    """Evaluate the policy on the MDP of the case for each policy representation; when the case has an
-    object-reuse history, the same policy object is then evaluated on the second presentation of the
-    MDP and once more on the first.  Returns {prep: [(stage, projection or {"error": ...}), ...]}."""
+def _shift_rewards(m):
+    mm = dict(m)
+    mm["R"] = [[[x - 1 for x in row] for row in sa] for sa in m["R"]]
+    return mm
+
+
+def run_real(case, wq, tn, preps, tamper=None, sib=None):
+    """Evaluate the policy on the MDP of the case for each policy representation, then continue the call
+    history of the SAME policy object:
+      hist:   the second presentation of the MDP (permuted lists, maybe other labels), and the first again;
+      sib:    (the sibling instance = same MDP, other discount) the same MDP object after its discount_rate
+              was changed in place, after it was changed back, and a loop over short-lived MDP objects
+              (each built after the previous one was dropped) alternating between the two discounts.
+    Returns {prep: [(stage, which, projection or {"error": ...}), ...]}; `which` in {"own", "sib"} names the
+    instance whose oracle the call is judged against."""
     m, rep = case["m"], case["rep"]
-    mm = m
-    if tamper == "instance":      # selftest: hand msdm a different reward
-        mm = dict(m)
-        mm["R"] = [[[x - 1 for x in row] for row in sa] for sa in m["R"]]
+    mm = _shift_rewards(m) if tamper == "instance" else m      # selftest: hand msdm a different reward
+    sm = None
+    if sib is not None:
+        sm = _shift_rewards(sib["m"]) if tamper == "instance" else sib["m"]
     wreal = real_weights(m, wq, tn)
     disc_real = NEAR1[m["g_kind"]] if m.get("near1") else None
     rep1 = {k: rep[k] for k in ("rep", "labels", "alabels", "explicit_list", "dist")}
     out = {}
+
+    def evaluate(stages, stage, which, pol, bb):
+        try:
+            with warnings.catch_warnings():
+                warnings.simplefilter("ignore")
+                stages.append((stage, which, project(bb, pol.evaluate_on(bb.mdp))))
+        except Exception as e:                   # noqa: BLE001 - judged as a clause failure
+            stages.append((stage, which, {"error": f"{type(e).__name__}: {e}"[:300]}))
+
     for prep in preps:
         seed = digest([case, wq, tn, prep])
         rng = random.Random(seed)
@@ -656,16 +694,33 @@ def run_real(case, wq, tn, preps, tamper=None):
         except TLCFailure:
             raise
         except Exception as e:                       # noqa: BLE001 - judged as a clause failure
-            stages.append(("fresh", {"error": f"{type(e).__name__}: {e}"[:300]}))
+            stages.append(("fresh", "own", {"error": f"{type(e).__name__}: {e}"[:300]}))
             continue
-        plan = [("fresh", b)] + ([("reuse-on-permuted-mdp", b2), ("reuse-back-on-first-mdp", b)] if b2 else [])
-        for stage, bb in plan:
-            try:
-                with warnings.catch_warnings():
-                    warnings.simplefilter("ignore")
-                    stages.append((stage, project(bb, pol.evaluate_on(bb.mdp))))
-            except Exception as e:                   # noqa: BLE001 - judged as a clause failure
-                stages.append((stage, {"error": f"{type(e).__name__}: {e}"[:300]}))
+        evaluate(stages, "fresh", "own", pol, b)
+        if b2 is not None:
+            evaluate(stages, "reuse-on-permuted-mdp", "own", pol, b2)
+            evaluate(stages, "reuse-back-on-first-mdp", "own", pol, b)
+        if sm is not None:
+            g_own = float(F(m["GN"], m["GD"]))
+            g_sib = float(F(sm["GN"], sm["GD"]))
+            b.mdp.discount_rate = g_sib
+            evaluate(stages, "same-mdp-object-after-discount-change", "sib", pol, b)
+            b.mdp.discount_rate = g_own
+            evaluate(stages, "same-mdp-object-discount-changed-back", "own", pol, b)
+            # short-lived MDP objects: each is built after the previous one was dropped
+            del b
+            b2 = None
+            for t in range(4):
+                which = "sib" if t % 2 == 0 else "own"
+                try:
+                    with warnings.catch_warnings():
+                        warnings.simplefilter("ignore")
+                        bt = build.build_mdp(sm if which == "sib" else mm, rng=random.Random(seed), **rep1)
+                except Exception as e:               # noqa: BLE001
+                    stages.append((f"short-lived-mdp-object-{t}", which, {"error": f"{type(e).__name__}: {e}"[:300]}))
+                    continue
+                evaluate(stages, f"short-lived-mdp-object-{t}", which, pol, bt)
+                del bt
     return out
 
 
@@ -702,7 +757,7 @@ WHAT = ("mc: oracle + evaluation machine over (instance, policy) pairs; all menu
         "on instances with <= 25 of them; policies with rare entries; second round of the machine on the "
         "permuted presentation for object-reuse histories")
 BATCH_FIELDS = ("N", "K", "PD", "GN", "GD", "ID", "abs", "avail", "P", "R", "p0", "gw", "allpols", "pols",
-                "tinys", "hist", "sp", "ap", "near1", "explicit")
+                "tinys", "hist", "sp", "ap", "near1", "explicit", "sibofs")
 
 
 def tlc_run(ctx, cases, tag="mc", coverage=False):
@@ -732,9 +787,16 @@ def judge_cases(ctx, cases, *, tamper=None, tamper_at=(), preps=None, res=None):
     if len(recs) != expected:
         raise TLCFailure(f"TLC emitted {len(recs)} records, {expected} (instance, policy) pairs expected")
     recs.sort(key=lambda r: (r["iid"], r["w"], r["tn"]))
+    by_key = {(r["iid"], canon(r["w"]), canon(r["tn"])): r for r in recs}
     for n, r in enumerate(recs):
         c = cases[r["iid"] - 1]
-        judge_one(ctx, c, r, n, tamper=(tamper if n in tamper_at else None), preps=preps)
+        sib = None
+        if c["m"].get("sibofs"):
+            sr = by_key.get((r["iid"] + 1, canon(r["w"]), canon(r["tn"])))
+            if sr is None:
+                raise TLCFailure(f"no record of the sibling instance for iid {r['iid']}")
+            sib = (cases[r["iid"]], sr)
+        judge_one(ctx, c, r, n, tamper=(tamper if n in tamper_at else None), preps=preps, sib=sib)
 
 
 def crosscheck(m, wq, tn, r):
@@ -775,49 +837,55 @@ def crosscheck(m, wq, tn, r):
         agree(r["init"], er["init"], bool(r["iexact"]), "initial value")
 
 
-def judge_one(ctx, c, r, n, *, tamper=None, preps=None):
+def unpack(m, r):
+    """What TLC decided for one (instance, policy) record, in 0-based indices."""
+    near1 = bool(m.get("near1"))
+    return {
+        "m": m, "disc": m["GN"] < m["GD"], "site": SITE[m["GN"] < m["GD"]], "near1": near1,
+        # binding entries of a near-one instance: cond(I - gamma P) <= 2/(1-gamma) = 2^21, so 1e-16 * 5 * 2^21 ~ 1e-9
+        # is the attainable accuracy; 1e-6 leaves three orders of magnitude (the entries do not depend on gamma)
+        "tol": 1e-6 if near1 else 1e-9,
+        "v": [frac(x) for x in r["v"]], "q": [[frac(x) for x in row] for row in r["q"]],
+        "mq": [[frac(x) for x in row] for row in r["mq"]], "occ": [frac(x) for x in r["occ"]],
+        "init": frac(r["init"]), "absall": {s - 1 for s in r["absall"]}, "implabs": {s - 1 for s in r["implabs"]},
+        "vx": {s - 1 for s in r["vexact"]}, "ox": {s - 1 for s in r["oexact"]}, "qx": r["qexact"],
+        "ix": bool(r["iexact"]), "absfin": r["absfin"]}
+
+
+def judge_one(ctx, c, r, n, *, tamper=None, preps=None, sib=None):
     m = c["m"]
     wq, tn = r["w"], r["tn"]
     N, K = m["N"], m["K"]
-    disc = m["GN"] < m["GD"]
     rare = any(any(row) for row in tn)
     near1 = bool(m.get("near1"))
-    # binding entries of a near-one instance: cond(I - gamma P) <= 2/(1-gamma) = 2^21, so 1e-16 * 5 * 2^21 ~ 1e-9
-    # is the attainable accuracy; 1e-6 leaves three orders of magnitude (the entries do not depend on gamma)
-    tol = 1e-6 if near1 else 1e-9
     if n % 3 == 0 or tamper or rare or near1:
         crosscheck(m, wq, tn, r)
         ctx.count("oracle_crosschecks")
-    v = [frac(x) for x in r["v"]]
-    q = [[frac(x) for x in row] for row in r["q"]]
-    mq = [[frac(x) for x in row] for row in r["mq"]]
-    occ = [frac(x) for x in r["occ"]]
-    init = frac(r["init"])
-    absall = {s - 1 for s in r["absall"]}
-    implabs = {s - 1 for s in r["implabs"]}
-    vx = {s - 1 for s in r["vexact"]}
-    ox = {s - 1 for s in r["oexact"]}
-    qx = r["qexact"]
-    ix = bool(r["iexact"])
-    absfin = r["absfin"]
+    exp = {"own": unpack(m, r)}
+    if sib is not None:
+        exp["sib"] = unpack(sib[0]["m"], sib[1])
+    E0 = exp["own"]
+    absall, v, q, occ, init, vx = E0["absall"], E0["v"], E0["q"], E0["occ"], E0["init"], E0["vx"]
     if preps is None:
         rng = random.Random(digest([m, wq, tn]))
         preps = [DIRECT[rng.randrange(len(DIRECT))], CONVERTED[rng.randrange(len(CONVERTED))]]
-    outs = run_real(c, wq, tn, preps, tamper=("instance" if tamper == "instance" else None))
+    outs = run_real(c, wq, tn, preps, tamper=("instance" if tamper == "instance" else None),
+                    sib=(sib[0] if sib is not None else None))
     if tamper == "value":
-        o = next(o for st in outs.values() for _, o in st if "error" not in o)
+        o = next(o for st in outs.values() for _, _, o in st if "error" not in o)
         s = next((s for s in o["states"] if s not in absall and s in vx), o["states"][0])   # a binding entry
         o["V"][s] += 0.5
-    site = SITE[disc]
     conv = {"functional_dict": "Policy.to_tabular", "functional_dist_perm": "Policy.to_tabular",
             "from_dict": "TabularPolicy.from_dict", "from_dict_sparse": "TabularPolicy.from_dict"}
     direct_failed = set()
     all_ok = True
     for prep in preps:
         fresh_failed = set()
-        for stage, o in outs[prep]:
+        for stage, which, o in outs[prep]:
+            E = exp[which]
+            site, tol = E["site"], E["tol"]
             ctx.evaluations += 1
-            ctx.count(f"runs[{prep}]" if stage == "fresh" else f"runs[{stage}]")
+            ctx.count(f"runs[{prep}]" if stage == "fresh" else f"runs[{stage.rstrip('0123456789-')}]")
             failed = []
             drifts = []      # reported only when every clause of the statement held on this run
 
@@ -833,39 +901,43 @@ def judge_one(ctx, c, r, n, *, tamper=None, preps=None):
                     sig += ":rare-weight"
                 if near1:
                     sig += ":discount-just-below-1"
-                ctx.violation(sig, f"{site} [{prep}, {stage}] {clause}: {what}",
-                              {"case": _single({"case": c, "w": wq, "tn": tn}), "w": wq, "tn": tn, "preps": [prep],
-                               "clause": clause})
+                body = {"case": _single({"case": c, "w": wq, "tn": tn}), "w": wq, "tn": tn, "preps": [prep],
+                        "clause": clause}
+                if sib is not None:
+                    body["sib"] = _single({"case": sib[0], "w": wq, "tn": tn})
+                    body["case"]["m"]["sibofs"] = 1
+                ctx.violation(sig, f"{site} [{prep}, {stage}] {clause}: {what}", body)
 
             if "error" in o:
                 fail("error", f"raised {o['error']}")
             else:
                 listed = o["states"]
+                mm_ = E["m"]
                 # --- clause: state values (absorbing states worth 0, -inf exactly on the oracle's set)
                 for s in listed:
-                    if not close(o["V"][s], v[s], s in vx, tol):
-                        kind = "absorbing-zero" if s in absall else ("neginf-set" if (isinstance(v[s], float) or not math.isfinite(o["V"][s])) else "state_value")
-                        fail(kind, f"state_value[{s}]={o['V'][s]} but exact {v[s]}")
+                    if not close(o["V"][s], E["v"][s], s in E["vx"], tol):
+                        kind = "absorbing-zero" if s in E["absall"] else ("neginf-set" if (isinstance(E["v"][s], float) or not math.isfinite(o["V"][s])) else "state_value")
+                        fail(kind, f"state_value[{s}]={o['V'][s]} but exact {E['v'][s]}")
                         break
                 # --- clause: action values (unavailable actions -inf); rows of explicitly absorbing states: DRIFT only
                 done = False
                 for s in listed:
                     for a in o["actions"]:
                         x = o["Q"][s][a]
-                        if m["abs"][s]:
-                            if absfin[s][a] and not math.isfinite(x):
+                        if mm_["abs"][s]:
+                            if E["absfin"][s][a] and not math.isfinite(x):
                                 fail("available-action-of-absorbing-state", f"action_value[{s}][{a}]={x}: the action is "
                                      f"available in the absorbing state {s} and no successor is worth -inf")
                                 done = True
                                 break
-                            e = mq[s][a] if mq[s][a] is not None else float("-inf")
-                            if not close(x, e, bool(qx[s][a]), tol):
+                            e = E["mq"][s][a] if E["mq"][s][a] is not None else float("-inf")
+                            if not close(x, e, bool(E["qx"][s][a]), tol):
                                 drifts.append(("ActionValue-at-absorbing-state",
                                                {"case": digest(c), "state": s, "action": a, "real": x, "machine": str(e)}))
                             continue
-                        e = q[s][a] if q[s][a] is not None else float("-inf")
-                        if not close(x, e, bool(qx[s][a]), tol):
-                            kind = "unavailable-action" if q[s][a] is None else "action_value"
+                        e = E["q"][s][a] if E["q"][s][a] is not None else float("-inf")
+                        if not close(x, e, bool(E["qx"][s][a]), tol):
+                            kind = "unavailable-action" if E["q"][s][a] is None else "action_value"
                             fail(kind, f"action_value[{s}][{a}]={x} but exact {e}")
                             done = True
                             break
@@ -873,17 +945,17 @@ def judge_one(ctx, c, r, n, *, tamper=None, preps=None):
                         break
                 # --- clause: occupancies (implicitly absorbing states: DRIFT only)
                 for s in listed:
-                    if not close(o["occ"][s], occ[s], s in ox, tol):
-                        if s in implabs:
+                    if not close(o["occ"][s], E["occ"][s], s in E["ox"], tol):
+                        if s in E["implabs"]:
                             drifts.append(("Occupancy-at-implicitly-absorbing-state",
-                                           {"case": digest(c), "state": s, "real": o["occ"][s], "machine": str(occ[s])}))
+                                           {"case": digest(c), "state": s, "real": o["occ"][s], "machine": str(E["occ"][s])}))
                             continue
-                        kind = "posinf-set" if (isinstance(occ[s], float) or not math.isfinite(o["occ"][s])) else "state_occupancy"
-                        fail(kind, f"state_occupancy[{s}]={o['occ'][s]} but exact {occ[s]}")
+                        kind = "posinf-set" if (isinstance(E["occ"][s], float) or not math.isfinite(o["occ"][s])) else "state_occupancy"
+                        fail(kind, f"state_occupancy[{s}]={o['occ'][s]} but exact {E['occ'][s]}")
                         break
                 # --- clause: initial value
-                if not close(o["initial_value"], init, ix, tol):
-                    fail("initial_value", f"initial_value={o['initial_value']} but exact {init}")
+                if not close(o["initial_value"], E["init"], E["ix"], tol):
+                    fail("initial_value", f"initial_value={o['initial_value']} but exact {E['init']}")
             if stage == "fresh":
                 fresh_failed = set(failed)
                 if prep in DIRECT:
@@ -895,7 +967,7 @@ def judge_one(ctx, c, r, n, *, tamper=None, preps=None):
             else:
                 ctx.validated += 1
     # non-triviality: >= 2 listed non-absorbing states and the policy mixes two actions of different exact Q
-    ok_out = next((o for st in outs.values() for _, o in st if "error" not in o), None)
+    ok_out = next((o for st in outs.values() for _, which, o in st if "error" not in o and which == "own"), None)
     if ok_out is not None:
         na = [s for s in ok_out["states"] if s not in absall]
         mixes = any(len({str(q[s][a]) for a in range(K) if wq[s][a] > 0}) > 1 for s in na)
@@ -907,23 +979,26 @@ def judge_one(ctx, c, r, n, *, tamper=None, preps=None):
                 ctx.count("records_with_rare_weights_and_nonbinding_values")
         if m.get("hist"):
             ctx.count("records_with_object_reuse_history")
+        if sib is not None:
+            ctx.count("records_with_discount_change_history")
         if near1:
             ctx.count("records_with_discount_just_below_1")
-        if any(absfin[s][a] and not any(m["P"][s][a][t] > 0 and t in ok_out["states"] for t in range(N))
+        if any(E0["absfin"][s][a] and not any(m["P"][s][a][t] > 0 and t in ok_out["states"] for t in range(N))
                for s in ok_out["states"] for a in range(K)):
             ctx.count("records_with_absorbing_action_leading_outside_the_state_list")
-        if not disc:
+        if not E0["disc"]:
             if any(v[s] == float("-inf") for s in na):
                 ctx.count("undiscounted_cases_with_neginf_state")
             if any(isinstance(v[s], F) and v[s] != 0 for s in na):
                 ctx.count("undiscounted_cases_with_finite_nonzero_state")
             if any(occ[s] == float("inf") for s in na):
                 ctx.count("undiscounted_cases_with_posinf_occupancy")
-    ctx.sample({"instance": {k: m[k] for k in ("N", "K", "PD", "GN", "GD", "ID", "abs", "avail", "P", "R", "p0", "gw", "hist", "sp", "ap", "near1", "g_kind", "explicit")},
+    ctx.sample({"instance": {k: m[k] for k in ("N", "K", "PD", "GN", "GD", "ID", "abs", "avail", "P", "R", "p0", "gw", "hist", "sp", "ap", "near1", "g_kind", "explicit", "sibofs")},
+                "sibling_discount": ([sib[0]["m"]["GN"], sib[0]["m"]["GD"]] if sib is not None else None),
                 "policy_w_over_6": wq, "rare_flags": tn, "rep": c["rep"], "policy_reps": preps,
                 "exact": {"v": [str(x) for x in v], "occ": [str(x) for x in occ], "init": str(init)},
-                "real": {p: [(stage, o if "error" in o else {"V": o["V"], "occ": o["occ"], "initial_value": o["initial_value"]})
-                             for stage, o in st] for p, st in outs.items()}})
+                "real": {p: [(stage, which, o if "error" in o else {"V": o["V"], "occ": o["occ"], "initial_value": o["initial_value"]})
+                             for stage, which, o in st] for p, st in outs.items()}})
     return all_ok
 
 
@@ -958,7 +1033,13 @@ def run(ctx):
     from concurrent.futures import ThreadPoolExecutor
     nchunks = max(2, round(len(cases) / 150))
     size = -(-len(cases) // nchunks)
-    chunks = [cases[k:k + size] for k in range(0, len(cases), size)]
+    chunks, k = [], 0
+    while k < len(cases):
+        e = min(k + size, len(cases))
+        if cases[e - 1]["m"].get("sibofs"):      # a sibling pair stays in one batch
+            e += 1
+        chunks.append(cases[k:e])
+        k = e
     with ThreadPoolExecutor(max_workers=1) as pool:
         futs = [pool.submit(tlc_run, ctx, ch, f"mc{i}") for i, ch in enumerate(chunks)]
         # per-action coverage (slow) is collected in an extra run over the first 40 instances, thorough tier only
@@ -981,17 +1062,35 @@ def _single(case):
     m.setdefault("near1", 0)
     m.setdefault("g_kind", 0)
     m.setdefault("explicit", 1 if case["case"]["rep"].get("explicit_list") else 0)
+    m["sibofs"] = 0
     m.setdefault("sp", list(range(1, m["N"] + 1)))
     m.setdefault("ap", list(range(1, m["K"] + 1)))
     return {"m": m, "rep": case["case"]["rep"]}
 
 
+def detach(cases):
+    """Sub-lists of generated cases: a case whose sibling does not follow it loses its sibling history."""
+    out = []
+    for i, c in enumerate(cases):
+        nxt = cases[i + 1]["m"] if i + 1 < len(cases) else {}
+        if c["m"].get("sibofs") and not nxt.get("sib_of_prev"):
+            c = {"m": dict(c["m"], sibofs=0), "rep": c["rep"]}
+        out.append(c)
+    return out
+
+
 def replay(ctx, case):
     c = _single(case)
-    recs = tlc_records(ctx, [c], "replay: one (instance, policy) pair")
-    if len(recs) != 1:
-        raise TLCFailure(f"replay: expected one record, got {len(recs)}")
-    judge_one(ctx, c, recs[0], 0, preps=case.get("preps"))      # n = 0: the oracle cross-check runs too
+    cs = [c]
+    if case.get("sib"):
+        c["m"]["sibofs"] = 1
+        cs.append(_single({"case": case["sib"], "w": case["w"], "tn": case.get("tn")}))
+    recs = tlc_records(ctx, cs, "replay: one (instance, policy) pair" + (" and its sibling" if len(cs) > 1 else ""))
+    if len(recs) != len(cs):
+        raise TLCFailure(f"replay: expected {len(cs)} record(s), got {len(recs)}")
+    recs.sort(key=lambda r: r["iid"])
+    sib = (cs[1], recs[1]) if len(cs) > 1 else None
+    judge_one(ctx, c, recs[0], 0, preps=case.get("preps"), sib=sib)      # n = 0: the oracle cross-check runs too
 
 
 def selftest(ctx):
@@ -999,13 +1098,14 @@ def selftest(ctx):
     instance that differs from the one TLC evaluated; both must be reported, and the untouched
     cases must not be."""
     rng = random.Random(11)
-    cases, _ = make_cases(rng, 60, "quick")
+    cases, _ = make_cases(rng, 400, "quick")
     # discounted cases only, so that nothing but the tampering can fail
-    cases = [c for c in cases if c["m"]["GN"] < c["m"]["GD"] and not c["m"]["near1"]][:6]
+    cases = detach([c for c in cases if c["m"]["GN"] < c["m"]["GD"] and not c["m"]["near1"]
+                    and not c["m"].get("sib_of_prev")][:6])
     ok = True
     for tamper in ("value", "instance"):
         before = len(ctx.violations)
-        judge_cases(ctx, cases, tamper=tamper, tamper_at=(1, 8, 15, 22), preps=["table_perm", "functional_dist_perm"])
+        judge_cases(ctx, cases, tamper=tamper, tamper_at=range(1, 400, 6), preps=["table_perm", "functional_dist_perm"])
         got = len(ctx.violations) - before
         print(f"  selftest tamper={tamper}: {got} failure(s) reported", flush=True)
         ok = ok and got >= 1
